@@ -126,7 +126,10 @@ def run_rtc(ctx, prop, replay=None):
             stats["accept_ok" if accept == "ok" else "accept_mismatch"] += 1
             cl = cases.get(cname, [])
             ft = features(cl)
-            canon = "".join(l for l in cl if l.startswith(("case ", "op ", "ev ret", "ev drop", "ev served")))
+            # stimuli in order + observed results as a set (the order in which independent callers
+            # notice a lost connection is not deterministic)
+            canon = "".join(l for l in cl if l.startswith(("case ", "op "))) + \
+                "".join(sorted(l for l in cl if l.startswith(("ev ret", "ev drop", "ev served"))))
             canon = re.sub(r"^case \S+", "case", canon)
             h = hashlib.sha1(canon.encode()).hexdigest()
             if prop == "c12":
